@@ -1596,6 +1596,10 @@ class Interp:
             bm = Unknown(f"dict method {attr}")
             bm.bound_tbl = (b, attr)  # type: ignore[attr-defined]
             return bm
+        if (isinstance(b, MapV) or (isinstance(b, Const) and isinstance(b.value, dict))) and attr == "get":
+            bm = Unknown("dict.get")
+            bm.bound_map = b  # type: ignore[attr-defined]
+            return bm
         return Unknown(f"attribute {attr} of {b!r}")
 
     def static_is_str(self, cls: str, b: Operand) -> V:
@@ -1973,7 +1977,7 @@ class Interp:
                             return self.call_function(c2.methods[f.attr], [self_obj] + args, self_obj=self_obj, owner=c2.name, kwargs=kwargs)
                     return Const(None)
                 return Unknown("super() outside a method")
-            if isinstance(f.value, ast.Name) and f.value.id in ("self", "cls", "BasicVisitor") and not isinstance(env.get("self"), Obj):
+            if isinstance(f.value, ast.Name) and f.value.id in ("self", "cls", "BasicVisitor") and not isinstance(env.get("self"), Obj) and not isinstance(env.get(f.value.id), (Obj, ClassRef)):
                 # BasicVisitor helper: self.visit_x(node, visited_children)
                 m = self.vm.cls.methods.get(f.attr) or self.vm.cls.classmethods.get(f.attr)
                 if m is not None:
@@ -1992,6 +1996,8 @@ class Interp:
             obj, (ci, fn) = t.bound
             if any(isinstance(d, ast.Name) and d.id == "staticmethod" for d in fn.decorator_list):
                 return self.call_function(fn, args, self_obj=None, owner=ci.name, kwargs=kwargs)
+            if any(isinstance(d, ast.Name) and d.id == "classmethod" for d in fn.decorator_list):
+                return self.call_function(fn, [ClassRef(obj.cls)] + args, self_obj=None, owner=ci.name, kwargs=kwargs)
             key = None
             if all(isinstance(a, (Const, NumV)) for a in args) and all(isinstance(a, (Const, NumV)) for a in kwargs.values()):
                 key = (id(obj), fn.name, ci.name, tuple(a.value if isinstance(a, Const) else "num" for a in args), tuple(sorted((k, a.value if isinstance(a, Const) else "num") for k, a in kwargs.items())))
@@ -2009,7 +2015,22 @@ class Interp:
             return self.construct(t.name, args, kwargs, getattr(n, "lineno", 0), owner)
         if hasattr(t, "bound_cls"):
             cname, (ci, fn) = t.bound_cls
+            decos = {d.id for d in fn.decorator_list if isinstance(d, ast.Name)}
+            if "staticmethod" in decos:
+                return self.call_function(fn, args, self_obj=None, owner=ci.name, kwargs=kwargs)
+            if "classmethod" not in decos and args and isinstance(args[0], Obj):
+                # a plain method called through its class: the receiver is the first argument
+                return self.call_function(fn, args, self_obj=args[0], owner=ci.name, kwargs=kwargs)
             return self.call_function(fn, [ClassRef(cname)] + args, self_obj=None, owner=ci.name, kwargs=kwargs)
+        if hasattr(t, "bound_map") and 1 <= len(args) <= 2 and not kwargs:
+            mp = t.bound_map
+            items_ = mp.items if isinstance(mp, MapV) else {k_: Const(v_) for k_, v_ in mp.value.items()}
+            dflt = args[1] if len(args) == 2 else Const(None)
+            k = args[0]
+            keys = [k.value] if isinstance(k, Const) else (sorted(self.str_lits(k)) if self.str_lits(k) is not None else None)
+            if keys is None:
+                return mk_union(list(items_.values()) + [dflt])
+            return mk_union([items_[kk] if kk in items_ else dflt for kk in keys])
         if hasattr(t, "bound_str"):
             s, meth = t.bound_str
             return self.str_method(s, meth, args)
